@@ -56,6 +56,8 @@ def run(tier, rep):
     regv, rows = registry()
     (d / "registry.json").write_text(json.dumps({"from": regv, "rows": rows}))
     hosts = lib.available(lib.HOST_VERSIONS if tier == "thorough" else ["3.8", "3.12", "3.13"])
+    if lib.MAIN_HOST not in hosts:
+        hosts.append(lib.MAIN_HOST)
     total_known = set()
     for h in hosts:
         out = d / ("magics-%s.json" % h)
@@ -85,6 +87,26 @@ def run(tier, rep):
                 m = -1
             sig = "%s:magic=%d" % (inv, m)
             rep.reject(sig, "xdis.magics", detail, {"host": h, "magic": m, "invariant": inv})
+    # end to end: a file that loads can be disassembled (AcceptedHasTable exercised through the real API)
+    import c06
+    release = set(m for _, m in c06.RELEASES)
+    acc_out = d / "accept.json"
+    lib.run_py(lib.MAIN_HOST, lib.HARNESS / "rec_accept.py", [acc_out, d / ("magics-%s.json" % lib.MAIN_HOST)], timeout=900)
+    acc = json.loads(acc_out.read_text())
+    okn = 0
+    unsure = []
+    for a in acc:
+        rep.evaluations += 1
+        if a["stage"] == "ok":
+            okn += 1
+            rep.traces += 1
+        elif a["magic"] in release:
+            rep.reject("C08.loads_but_cannot_be_disassembled:magic=%d" % a["magic"] if a["stage"] == "disassemble" else "C08.release_magic_does_not_load:magic=%d" % a["magic"],
+                       "load_module + disassemble_file", a, {"magic": a["magic"]})
+        else:
+            unsure.append({"magic": a["magic"], "stage": a["stage"]})
+    rep.extra["end_to_end"] = {"magics_loaded_and_disassembled": okn, "release_magics": len(release),
+                               "pre_release_magics_not_exercised (header form of the interim magic not known here)": unsure}
     for m in total_known | set(q["magic"] for q in rows):
         rep.nontriv(m)
     rep.exhaustive = True
